@@ -83,3 +83,19 @@ where
         }
     }
 }
+
+// ---------------------------------------------------------------------------
+// <[u8]>::is_ascii: core's implementation reads the slice a usize at a time after `align_offset`,
+// which CBMC can only treat nondeterministically and at great cost; the stub is the byte loop of
+// its documentation ("checks if all bytes in this slice are within the ASCII range").
+// ---------------------------------------------------------------------------
+pub fn is_ascii_stub(this: &[u8]) -> bool {
+    let mut i = 0;
+    while i < this.len() {
+        if this[i] >= 0x80 {
+            return false;
+        }
+        i += 1;
+    }
+    true
+}
